@@ -120,6 +120,10 @@ def via_sasview(Model, pars, pd, q, cutoff, multiplicity=None, array_for=None, r
         if kname in m.params:
             m.setParam(kname, v)
     for n, (t, npts, w, ns) in pd.items():
+        if n not in m.params:
+            # an element of a vector parameter beyond the object's shell count (the shell count drawn on its lower limit):
+            # the object does not have it, and it has no effect through the other interfaces either
+            continue
         if array_for == n:
             disp = weights.ArrayDispersion()
             p = m._model_info.parameters[n]
